@@ -64,6 +64,11 @@ def _qmut_scan(ctx, mod, q, fn, receiver, file_params, obj_params, mutator):
             continue
         nsink += 1
         b = ev.base
+        if b[0] == 'VIEW' and ev.kind in ('aug-name', 'aug-sub', 'store-sub') and is_maybe_input(b[1]) and not ev.guarded_inplace:
+            # the array is a view of the input on at least one path through the function (the file variable is re-bound only on
+            # another path, e.g. a loop that may run zero times): the element write hits the input on that path
+            bad.append(ev)
+            continue
         if b[0] == 'UNK' or not is_input(b[1]):
             continue
         if b[0] == 'ATTR':
